@@ -78,6 +78,7 @@ def atmosphere(a):
         for h in (0.0, 100.0):
             for p in (650.0, 1100.0):
                 cases.append(dict(base, t=t, h=h, p=p, tw=min(t, 0.0)))
+    cases += [dict(base, xc=300.0), dict(base, xc=600.0, wl=0.532)]
     for v in cases:
         try:
             r = [sv.first_vel_corrn(v['d'], (v['c'], v['dd']), v['t'], v['p'], v['h']),
